@@ -14,7 +14,10 @@ def main():
   args = [a for a in sys.argv[1:] if not a.startswith("--")]
   tier = "quick"
   if "--tier" in sys.argv: tier = sys.argv[sys.argv.index("--tier") + 1]; args = [a for a in args if a != tier]
+  import glob
   muts = json.load(open(os.path.join(HERE, "mutants.json")))
+  for f in sorted(glob.glob(os.path.join(HERE, "mutants.d", "*.json"))):
+    muts.extend(json.load(open(f)))
   bad = 0
   for m in muts:
     if args and m["property"] not in args and m["id"] not in args: continue
